@@ -16,6 +16,12 @@
 //!     error (the two two-step windows register -> save initializer and publish -> mark signed),
 //!     plain failures, and the chain epoch turning right after the epoch settings were served.
 //!
+//!   * the double keeps one network configuration per recording epoch whose protocol parameters belong to one of two
+//!     GENERATIONS (really different m / phi_f); entering an epoch it creates the configuration of the next recording
+//!     epoch, with the same or -- when the schedule says `flip` -- the other generation, and serves them under
+//!     /protocol-configuration/{recording epoch} like the real aggregator.  Signatures of epoch e are verified with the
+//!     parameters kept for e-1, the aggregator-side message of epoch e carries those kept for e.
+//!
 //! After every stimulus the whole abstract state is projected (signer sqlite + aggregator double)
 //! and logged as an `Obs` event, validated by TLC against spec/signer/SignerTrace.tla.
 use std::collections::{BTreeMap, BTreeSet};
@@ -110,6 +116,20 @@ fn stake_distribution(fixture: &MithrilFixture, x: u64) -> Vec<SignerWithStake> 
         .collect()
 }
 
+/// the two parameter generations: a signature made under one is rejected under the other (an index >= 30, or an index
+/// that wins the phi_f = 0.95 lottery but not the 0.5 one), whoever signs still wins some lottery (p(no index) < 1e-9)
+fn generation(g: u8) -> ProtocolParameters {
+    match g {
+        1 => ProtocolParameters { k: 2, m: 30, phi_f: 0.95 },
+        2 => ProtocolParameters { k: 2, m: 100, phi_f: 0.5 },
+        other => panic!("no parameter generation {other}"),
+    }
+}
+
+fn generation_of(p: &ProtocolParameters) -> u8 {
+    (1..=2u8).find(|g| generation(*g) == *p).unwrap_or(0)
+}
+
 // -------------------------------------------------------------------------------------------
 // the aggregator double
 // -------------------------------------------------------------------------------------------
@@ -129,14 +149,29 @@ struct AggStore {
     /// every registration request: (recording epoch it was stored under or 0, claimed epoch, party, vk, outcome)
     reg_log: Vec<(u64, u64, PartyId, String, &'static str)>,
     sigs: Vec<ReceivedSignature>,
+    /// gens[recording epoch] = parameter generation of the configuration kept for it
+    gens: BTreeMap<u64, u8>,
+    flips: u64,
     fault: String,
     turn: bool,
+    turn_flip: bool,
     hits: BTreeMap<String, u64>,
 }
 
 impl AggStore {
     fn hit(&mut self, what: &str) {
         *self.hits.entry(what.to_string()).or_default() += 1;
+    }
+    /// entering `epoch` the aggregator creates the configuration of recording epoch `epoch + 1` (the parameters the keys
+    /// registered during `epoch` will sign with)
+    fn enter_epoch(&mut self, epoch: u64, flip: bool) {
+        let previous = self.gens[&epoch];
+        if !self.gens.contains_key(&(epoch + RECORDING_OFFSET)) {
+            self.gens.insert(epoch + RECORDING_OFFSET, if flip { 3 - previous } else { previous });
+            if flip {
+                self.flips += 1;
+            }
+        }
     }
     fn put(&mut self, rec: u64, part: SignerMessagePart) {
         self.regs.entry(rec).or_default().insert(part.party_id.clone(), part);
@@ -187,23 +222,31 @@ async fn epoch_settings(State(st): State<AggState>) -> Response {
     .into_response();
     if turn {
         // the chain enters the next epoch while the answer travels
+        let new_epoch = st.chain.next_epoch().await.unwrap();
+        st.chain.set_signers(stake_distribution(&st.fixture, *new_epoch)).await;
         let mut s = st.store.write().await;
         s.turn = false;
         s.hit("turn");
-        drop(s);
-        let new_epoch = st.chain.next_epoch().await.unwrap();
-        st.chain.set_signers(stake_distribution(&st.fixture, *new_epoch)).await;
+        let flip = s.turn_flip;
+        s.enter_epoch(*new_epoch, flip);
     }
     answer
 }
 
-async fn protocol_configuration(UrlPath(_epoch): UrlPath<u64>, State(st): State<AggState>) -> Response {
+async fn protocol_configuration(UrlPath(key): UrlPath<u64>, State(st): State<AggState>) -> Response {
     if st.store.read().await.fault == "unavailable" {
         return StatusCode::INTERNAL_SERVER_ERROR.into_response();
     }
+    // configurations are kept by recording epoch; an aggregator in epoch e has created them up to e + 1
+    let believed = st.epoch().await;
+    let generation_kept = st.store.read().await.gens.get(&key).copied();
+    let Some(g) = generation_kept.filter(|_| key <= believed + RECORDING_OFFSET) else {
+        st.store.write().await.hit("configuration_not_found");
+        return StatusCode::NOT_FOUND.into_response();
+    };
     let c = st.config.clone();
     let message = ProtocolConfigurationMessage {
-        protocol_parameters: c.protocol_parameters,
+        protocol_parameters: generation(g),
         cardano_transactions_signing_config: c.signed_entity_types_config.cardano_transactions,
         cardano_blocks_transactions_signing_config: c.signed_entity_types_config.cardano_blocks_transactions,
         available_signed_entity_types: c.enabled_signed_entity_types.into_iter().map(Into::into).collect(),
@@ -279,7 +322,6 @@ struct World {
     ticker: Arc<MithrilTickerService>,
     block_scanner: Arc<DumbBlockScanner>,
     fixture: Arc<MithrilFixture>,
-    params: ProtocolParameters,
     me: PartyId,
     store: Arc<RwLock<AggStore>>,
     _server: TestServer,
@@ -311,8 +353,7 @@ impl World {
     async fn new(dir: PathBuf) -> World {
         let _ = std::fs::remove_dir_all(&dir);
         std::fs::create_dir_all(dir.join("stores")).unwrap();
-        let params = ProtocolParameters { k: 2, m: 30, phi_f: 0.95 };
-        let fixture = Arc::new(MithrilFixtureBuilder::default().with_signers(NSIGNERS).with_protocol_parameters(params.clone()).build());
+        let fixture = Arc::new(MithrilFixtureBuilder::default().with_signers(NSIGNERS).with_protocol_parameters(generation(1)).build());
         let me = fixture.signers_with_stake()[0].party_id.clone();
         let start = TimePoint {
             epoch: Epoch(1),
@@ -326,13 +367,14 @@ impl World {
         let ticker = Arc::new(MithrilTickerService::new(chain.clone(), immutables.clone()));
         let block_scanner = Arc::new(DumbBlockScanner::new());
         block_scanner.add_forwards(vec![blocks(1..=100)]);
-        let store = Arc::new(RwLock::new(AggStore { fault: "none".into(), ..Default::default() }));
+        // in epoch 1 the aggregator holds the configurations of recording epochs 0, 1 and 2
+        let store = Arc::new(RwLock::new(AggStore { fault: "none".into(), gens: BTreeMap::from([(0, 1), (1, 1), (2, 1)]), ..Default::default() }));
         let state = AggState {
             ticker: ticker.clone(),
             chain: chain.clone(),
             fixture: fixture.clone(),
             config: MithrilNetworkConfigurationForEpoch {
-                protocol_parameters: params.clone(),
+                protocol_parameters: generation(1), // (not served: the generation kept for the asked epoch is)
                 enabled_signed_entity_types: BTreeSet::from([
                     SignedEntityTypeDiscriminants::MithrilStakeDistribution,
                     SignedEntityTypeDiscriminants::CardanoDatabase,
@@ -356,7 +398,6 @@ impl World {
             ticker,
             block_scanner,
             fixture,
-            params,
             me,
             store,
             _server: server,
@@ -499,9 +540,11 @@ impl World {
     /// the signer set (and verifier) an aggregator derives for recording epoch `rec` from exactly the registrations
     /// the double holds, with the stake distribution that was in force when they were made
     async fn derived_set(&mut self, rec: u64) -> Option<(Arc<SignerBuilder>, Arc<MultiSigner>, u64)> {
-        let (version, parts) = {
+        let (version, parts, params) = {
             let s = self.store.read().await;
-            (s.version.get(&rec).copied().unwrap_or(0), s.regs.get(&rec).map(|m| m.values().cloned().collect::<Vec<_>>()).unwrap_or_default())
+            // the parameters the aggregator keeps for that recording epoch
+            let params = generation(*s.gens.get(&rec)?);
+            (s.version.get(&rec).copied().unwrap_or(0), s.regs.get(&rec).map(|m| m.values().cloned().collect::<Vec<_>>()).unwrap_or_default(), params)
         };
         if !self.set_cache.contains_key(&(rec, version)) {
             let stakes = stake_distribution(&self.fixture, rec.checked_sub(RECORDING_OFFSET)?);
@@ -511,7 +554,7 @@ impl World {
                 let stake = stakes.iter().find(|s| s.party_id == signer.party_id)?.stake;
                 signers.push(SignerWithStake::from_signer(signer, stake));
             }
-            let built = SignerBuilder::new(&signers, &self.params).ok().map(|b| {
+            let built = SignerBuilder::new(&signers, &params).ok().map(|b| {
                 let ms = b.build_multi_signer();
                 (Arc::new(b), Arc::new(ms))
             });
@@ -547,7 +590,9 @@ impl World {
         let avk: ProtocolAggregateVerificationKeyForConcatenation =
             next.compute_aggregate_verification_key().to_concatenation_aggregate_verification_key().to_owned().into();
         message.set_message_part(ProtocolMessagePartKey::NextAggregateVerificationKey, avk.to_json_hex().ok()?);
-        message.set_message_part(ProtocolMessagePartKey::NextProtocolParameters, self.params.compute_hash());
+        // the next parameters of `epoch`: those kept for recording epoch `epoch`
+        let next_parameters = generation(*self.store.read().await.gens.get(&epoch)?);
+        message.set_message_part(ProtocolMessagePartKey::NextProtocolParameters, next_parameters.compute_hash());
         message.set_message_part(ProtocolMessagePartKey::CurrentEpoch, epoch.to_string());
         Some(message.compute_hash())
     }
@@ -604,6 +649,7 @@ impl Harness {
                     let mut s = self.w.store.write().await;
                     s.fault = fault.clone();
                     s.turn = a["turn"].as_bool().unwrap_or(false);
+                    s.turn_flip = a["flip"].as_bool().unwrap_or(false);
                 }
                 // a panic of the code under test is data: it ends the process, which is then restarted
                 let r = {
@@ -617,6 +663,7 @@ impl Harness {
                     let mut s = self.w.store.write().await;
                     s.fault = "none".into();
                     s.turn = false;
+                    s.turn_flip = false;
                 }
                 match r {
                     Ok(Ok(())) => json!({"ok": true, "err": "", "critical": false, "panic": false}),
@@ -638,6 +685,7 @@ impl Harness {
             "EpochUp" => {
                 let e = self.w.chain.next_epoch().await.unwrap();
                 self.w.chain.set_signers(stake_distribution(&self.w.fixture, *e)).await;
+                self.w.store.write().await.enter_epoch(*e, a["flip"].as_bool().unwrap_or(false));
                 json!({"ok": true})
             }
             "ImmUp" => {
@@ -686,7 +734,9 @@ impl Harness {
             let vk: mithril_common::crypto_helper::ProtocolSignerVerificationKeyForConcatenation = i.verification_key_for_concatenation().into();
             let id = self.w.key_id(&vk.to_json_hex().unwrap());
             stored_kid.insert(*e, id);
-            inits.push(json!({"epoch": e, "key": id}));
+            // the parameters a key signs with are those embedded in its initializer
+            let embedded: ProtocolParameters = i.get_protocol_parameters().into();
+            inits.push(json!({"epoch": e, "key": id, "gen": generation_of(&embedded)}));
         }
         // --- stored stake distributions
         let mut stakes = vec![];
@@ -727,6 +777,8 @@ impl Harness {
                 signed_entities.push(entry);
             }
         }
+        // --- the parameter generation the aggregator keeps per recording epoch
+        let params: Vec<Value> = self.w.store.read().await.gens.iter().map(|(e, g)| json!({"epoch": e, "gen": g})).collect();
         // --- what the aggregator holds for the signer under test
         let (my_regs, rec_epochs, received, nreg) = {
             let s = self.w.store.read().await;
@@ -827,7 +879,8 @@ impl Harness {
             signed.push(json!({"entity": name, "ee": ee, "lost_every_lottery": lost}));
         }
         json!({"state": label, "state_epoch": state_epoch, "data_epoch": data_epoch, "epoch": *tp.epoch, "imm": tp.immutable_file_number,
-               "inits": inits, "stakes": stakes, "signed": signed, "regs": regs, "sigs": sigs, "nreg_requests": nreg})
+               "inits": inits, "stakes": stakes, "signed": signed, "regs": regs, "sigs": sigs, "nreg_requests": nreg,
+               "params": params})
     }
 }
 
@@ -843,7 +896,7 @@ fn random_schedule(r: &mut ChaCha20Rng, len: usize) -> Vec<Value> {
         let a = match below(r, 24) {
             0..=10 => json!({"a":"Tick","fault":"none"}),
             11..=14 => json!({"a":"Tick","fault": faults[below(r, faults.len() as u64) as usize]}),
-            15 => json!({"a":"Tick","fault":"none","turn": true}),
+            15 => json!({"a":"Tick","fault":"none","turn": true, "flip": below(r, 2) == 0}),
             16 | 17 => json!({"a":"ImmUp"}),
             18 | 19 => {
                 let who: Vec<u64> = (1..NSIGNERS as u64).filter(|_| below(r, 3) != 0).collect();
@@ -855,7 +908,7 @@ fn random_schedule(r: &mut ChaCha20Rng, len: usize) -> Vec<Value> {
                     json!({"a":"Tick","fault":"none"})
                 } else {
                     since_epoch = 0;
-                    json!({"a":"EpochUp"})
+                    json!({"a":"EpochUp","flip": below(r, 2) == 0})
                 }
             }
         };
@@ -867,6 +920,7 @@ fn random_schedule(r: &mut ChaCha20Rng, len: usize) -> Vec<Value> {
 /// what one schedule produced
 struct RunOutput {
     events: Vec<Value>,
+    flips: u64,
     panics: u64,
     actions: u64,
     signatures: usize,
@@ -879,7 +933,7 @@ struct RunOutput {
 /// fault-free epilogue
 fn run_schedule(dir: PathBuf, id: &Value, schedule: &[Value]) -> RunOutput {
     let rt = tokio::runtime::Builder::new_current_thread().enable_all().build().unwrap();
-    let mut out = RunOutput { events: vec![], panics: 0, actions: 0, signatures: 0, registrations: 0, restarts: 0, hits: BTreeMap::new() };
+    let mut out = RunOutput { events: vec![], flips: 0, panics: 0, actions: 0, signatures: 0, registrations: 0, restarts: 0, hits: BTreeMap::new() };
     rt.block_on(async {
         let mut h = Harness::new(dir.clone()).await;
         let obs = h.project().await;
@@ -920,6 +974,7 @@ fn run_schedule(dir: PathBuf, id: &Value, schedule: &[Value]) -> RunOutput {
         out.restarts = h.restarts;
         out.panics = h.panics;
         out.hits = s.hits.clone();
+        out.flips = s.flips;
     });
     let _ = std::fs::remove_dir_all(&dir);
     out
@@ -974,8 +1029,10 @@ fn main() {
     let mut registrations = 0usize;
     let mut restarts = 0u64;
     let mut panics = 0u64;
+    let mut flips = 0u64;
     let mut hits: BTreeMap<String, u64> = BTreeMap::new();
     for (_, r) in results {
+        flips += r.flips;
         panics += r.panics;
         for e in r.events {
             trace.emit(e);
@@ -992,6 +1049,6 @@ fn main() {
     println!(
         "{}",
         json!({"events": n, "actions": actions, "schedules": schedules.len(), "signatures_received": signatures,
-               "registrations_recorded": registrations, "restarts": restarts, "panics_of_code_under_test": panics, "faults_exercised": hits})
+               "registrations_recorded": registrations, "restarts": restarts, "panics_of_code_under_test": panics, "parameter_changes": flips, "faults_exercised": hits})
     );
 }
